@@ -518,4 +518,14 @@ def run(ctx):
     for q in ("optuna.storages._cached_storage._CachedStorage", "optuna.storages._grpc.client.GrpcClientCache"):
         n7 += fetch_is_unfiltered(ctx, "R04.7", p.cls(q))
     ctx.floor("R04.7", "incremental_fetch_sites", n7, 2)
+    # ... and the watermark below which nothing is fetched again only ever advances to the id of a trial that came out of
+    # that fetch: a watermark raised from this client's own finished trial (add_trial of a COMPLETE trial) jumps over a
+    # trial another worker enqueued in the meantime, which then stays WAITING forever for this client (the R08.1 clauses)
+    from rules.c08 import check_cache_class
+    from sa.report import RuleAlias
+    actx = RuleAlias(ctx, {"R08.1": "R04.7"})
+    ns = 0
+    for q, label in (("optuna.storages._cached_storage._CachedStorage", "_CachedStorage"), ("optuna.storages._grpc.client.GrpcClientCache", "GrpcClientCache")):
+        ns += check_cache_class(actx, p.cls(q), label, 1)[0]
+    ctx.floor("R04.7", "watermark_stores", ns, 2)
 
